@@ -72,6 +72,19 @@ func (p *Parser) parseJournal() *ast.Journal {
 					journal.Directives = append(journal.Directives, dir)
 				}
 			}
+		case TokenIndent:
+			// Outside an entry an indented line is fine when it holds nothing (blanks left
+			// behind by an editor) or a comment; anything else has lost its entry.
+			indent := p.current
+			p.advance()
+			switch p.current.Type {
+			case TokenNewline, TokenEOF:
+			case TokenComment:
+				journal.Comments = append(journal.Comments, p.parseComment())
+			default:
+				p.errorAt(indent.Pos, "unexpected token: %s", indent.Type)
+				p.skipToNextLine()
+			}
 		default:
 			p.error("unexpected token: %s", p.current.Type)
 			p.skipToNextLine()
